@@ -28,6 +28,7 @@ use std::time::{Duration, Instant};
 
 use similar::algorithms::{diff_deadline, Capture, Compact, DiffHook, NoFinishHook, Replace};
 use similar::utils::{self as sutils, TextDiffRemapper};
+use similar::DiffableStr;
 use similar::{
     capture_diff_deadline, capture_diff_slices_deadline, get_diff_ratio, group_diff_ops, Algorithm,
     Change, ChangeTag, DiffOp, TextDiff,
@@ -759,6 +760,140 @@ fn c07_clock(cases: &mut u64) -> Option<String> {
                 }
             }
         }
+    }
+    None
+}
+
+
+// ---------------------------------------------------------------------------------------------
+// C06 tokenizers (str and, on the same bytes, [u8]): lossless partition + documented token shape
+// ---------------------------------------------------------------------------------------------
+fn c06_is_nl(c: char) -> bool {
+    c == '\r' || c == '\n'
+}
+fn c06_partition(what: &str, input: &[u8], toks: &[&[u8]]) -> Result<(), String> {
+    if toks.iter().any(|t| t.is_empty()) {
+        return Err(format!("{}: empty token in {:?}", what, toks));
+    }
+    let cat: Vec<u8> = toks.iter().flat_map(|t| t.iter().copied()).collect();
+    if cat != input {
+        return Err(format!("{}: concatenation of the tokens {:?} is not the input", what, toks));
+    }
+    Ok(())
+}
+/// line tokens over bytes (valid for str and [u8] alike: CR and LF are single bytes in UTF-8)
+fn c06_lines(what: &str, toks: &[&[u8]]) -> Result<(), String> {
+    for (k, t) in toks.iter().enumerate() {
+        let last = k + 1 == toks.len();
+        let (body, term): (&[u8], &[u8]) = if t.ends_with(b"\r\n") {
+            (&t[..t.len() - 2], &t[t.len() - 2..])
+        } else if t.ends_with(b"\n") || t.ends_with(b"\r") {
+            (&t[..t.len() - 1], &t[t.len() - 1..])
+        } else {
+            (&t[..], &t[t.len()..])
+        };
+        if body.iter().any(|&b| b == b'\r' || b == b'\n') {
+            return Err(format!("{}: line token {:?} contains a line break before its terminator", what, t));
+        }
+        if term.is_empty() && !last {
+            return Err(format!("{}: line token {:?} (not the last) lacks a terminator", what, t));
+        }
+        if term == b"\r" && !last && toks[k + 1].starts_with(b"\n") {
+            return Err(format!("{}: CR LF split over two line tokens {:?} / {:?}", what, t, toks[k + 1]));
+        }
+    }
+    Ok(())
+}
+fn c06_runs(what: &str, toks: &[&str], cls: &dyn Fn(char) -> bool) -> Result<(), String> {
+    for (k, t) in toks.iter().enumerate() {
+        let c0 = cls(t.chars().next().unwrap());
+        if t.chars().any(|c| cls(c) != c0) {
+            return Err(format!("{}: token {:?} mixes the two classes", what, t));
+        }
+        if k + 1 < toks.len() && cls(toks[k + 1].chars().next().unwrap()) == c0 {
+            return Err(format!("{}: adjacent tokens {:?} / {:?} are of the same class (runs not maximal)", what, t, toks[k + 1]));
+        }
+    }
+    Ok(())
+}
+fn c06_str(s: &str) -> Result<(), String> {
+    let bytes = s.as_bytes();
+    let as_b = |v: &Vec<&str>| -> Vec<Vec<u8>> { v.iter().map(|t| t.as_bytes().to_vec()) .collect() };
+    let lines = s.tokenize_lines();
+    let lnl = s.tokenize_lines_and_newlines();
+    let words = s.tokenize_words();
+    let chars = s.tokenize_chars();
+    for (name, toks) in [("tokenize_lines", &lines), ("tokenize_lines_and_newlines", &lnl), ("tokenize_words", &words), ("tokenize_chars", &chars)] {
+        let tb: Vec<&[u8]> = toks.iter().map(|t| t.as_bytes()).collect();
+        c06_partition(&format!("str {:?} {}", s, name), bytes, &tb)?;
+    }
+    let tb: Vec<&[u8]> = lines.iter().map(|t| t.as_bytes()).collect();
+    c06_lines(&format!("str {:?} tokenize_lines", s), &tb)?;
+    c06_runs(&format!("str {:?} tokenize_words", s), &words, &|c: char| c.is_whitespace())?;
+    c06_runs(&format!("str {:?} tokenize_lines_and_newlines", s), &lnl, &c06_is_nl)?;
+    if let Some(t) = chars.iter().find(|t| t.chars().count() != 1) {
+        return Err(format!("str {:?} tokenize_chars: token {:?} is not a single scalar value", s, t));
+    }
+    // the [u8] implementation on the same (valid UTF-8) bytes returns identical tokens
+    let b: &[u8] = bytes;
+    for (name, st, bt) in [
+        ("tokenize_lines", as_b(&lines), b.tokenize_lines()),
+        ("tokenize_lines_and_newlines", as_b(&lnl), b.tokenize_lines_and_newlines()),
+        ("tokenize_words", as_b(&words), b.tokenize_words()),
+        ("tokenize_chars", as_b(&chars), b.tokenize_chars()),
+    ] {
+        let bt: Vec<Vec<u8>> = bt.iter().map(|t| t.to_vec()).collect();
+        if st != bt {
+            return Err(format!("{} on {:?}: str tokens {:?} differ from [u8] tokens {:?} on the same valid UTF-8", name, s, st, bt));
+        }
+    }
+    Ok(())
+}
+fn c06_bytes(b: &[u8]) -> Result<(), String> {
+    let lines = b.tokenize_lines();
+    for (name, toks) in [("tokenize_lines", &lines), ("tokenize_lines_and_newlines", &b.tokenize_lines_and_newlines()), ("tokenize_words", &b.tokenize_words()), ("tokenize_chars", &b.tokenize_chars())] {
+        c06_partition(&format!("[u8] {:?} {}", b, name), b, toks)?;
+    }
+    c06_lines(&format!("[u8] {:?} tokenize_lines", b), &lines)?;
+    for t in b.tokenize_chars() {
+        match std::str::from_utf8(t) {
+            Ok(x) => if x.chars().count() != 1 { return Err(format!("[u8] {:?} tokenize_chars: token {:?} holds more than one scalar value", b, t)); },
+            Err(_) => if t.len() > 3 { return Err(format!("[u8] {:?} tokenize_chars: invalid-sequence token {:?} longer than 3 bytes", b, t)); },
+        }
+    }
+    Ok(())
+}
+fn c06(cases: &mut u64) -> Option<String> {
+    let alpha: [char; 11] = ['a', ' ', '\n', '\r', '\u{a0}', '\u{e9}', '\u{2028}', '\u{3000}', '\u{85}', '\u{301}', '\u{1f600}'];
+    let mut layer: Vec<String> = vec![String::new()];
+    for _len in 0..=5 {
+        for s in &layer {
+            *cases += 1;
+            match guard(|| c06_str(s)) {
+                Ok(Ok(())) => {}
+                Ok(Err(e)) => return Some(format!("C06 {}", e)),
+                Err(p) => return Some(format!("C06 str {:?}: {}", s, p)),
+            }
+        }
+        layer = layer.iter().flat_map(|s| alpha.iter().map(move |c| { let mut t = s.clone(); t.push(*c); t })).collect();
+    }
+    // a few longer texts: zero-width joiner / flag sequences, mixed terminators, missing final newline
+    for s in ["a\u{200d}b \u{1f1e9}\u{1f1ea}\r\n\r\rx\n\ny", "\r\n\r\n", "one two\u{a0}three\u{3000}\u{2028}four\u{85}five\tsix", "e\u{301}\u{301} \u{0} \u{7f}\n"] {
+        *cases += 1;
+        if let Ok(Err(e)) | Err(e) = guard(|| c06_str(s)).map(|r| r) { return Some(format!("C06 {}", e)); }
+    }
+    let balpha: [u8; 11] = [b'a', b' ', b'\n', b'\r', 0xC3, 0xA9, 0xFF, 0xE2, 0x80, 0xA8, 0x00];
+    let mut layer: Vec<Vec<u8>> = vec![vec![]];
+    for _len in 0..=5 {
+        for b in &layer {
+            *cases += 1;
+            match guard(|| c06_bytes(b)) {
+                Ok(Ok(())) => {}
+                Ok(Err(e)) => return Some(format!("C06 {}", e)),
+                Err(p) => return Some(format!("C06 [u8] {:?}: {}", b, p)),
+            }
+        }
+        layer = layer.iter().flat_map(|s| balpha.iter().map(move |c| { let mut t = s.clone(); t.push(*c); t })).collect();
     }
     None
 }
@@ -2009,6 +2144,7 @@ fn main() {
         "C01" => (c01(&mut cases), "alphabet {0,1,2}, len 0..=6, 3 algorithms x (embedded sub-range, guarded Index, extracted slices)"),
         "C07" => (c07(&mut cases), "alphabet {0,1,2}, len 0..=6, deadline expired at entry, raw algorithms + capture_diff_deadline; builder plumbing; work after expiry <= 8(N+M)+16 on 6 shapes of 40 and 300 items"),
         "C07clock" => (c07_clock(&mut cases), "virtual clock (cfg similar_verif): alphabet {0,1,2} len 0..=5 x every deadline check k, plus 6 shapes of 120 items x sampled k; valid script, finish once, never-expiring == no deadline, work after expiry <= 8(N+M)+16"),
+        "C06" => (c06(&mut cases), "str: all strings of length 0..=5 over 11 scalars (ASCII, CR, LF, NBSP, U+2028, U+3000, U+0085, combining mark, 2- and 4-byte chars) + 4 longer texts; [u8]: all byte strings of length 0..=5 over 11 bytes incl. invalid UTF-8; lines / lines_and_newlines / words / chars; str vs [u8] on the same bytes"),
         "C08" => (c08(&mut cases), "alphabet {0,1,2}, len 0..=4, 6 hook stacks x 2 hook kinds x every failing call index"),
         "C02" => (c02(&mut cases), "alphabet {0,1,2}, len 0..=5, deadline none/expired, slices + sub-ranges + TextDiff chars; 12 text diffs of 101..260 tokens through the integer-mapping path"),
         "C03" => (c03(&mut cases), "alphabet {0,1,2} len 0..=6 and alphabet {0,1} len 0..=8, Myers + LCS, raw + captured"),
